@@ -1,3 +1,22 @@
+//! C16, C17 and C29 need the hooks H4 (p2panda-net: yield point in `Gossip::stream`, `gossip::verif`)
+//! and H3b (p2panda: `verif_ephemeral`), see `../hooks/`. Until they are committed to /repo the
+//! crate builds without the `hooks` feature and registers nothing.
+
+#[cfg(feature = "hooks")]
+pub mod c16;
+#[cfg(feature = "hooks")]
+pub mod c17;
+#[cfg(feature = "hooks")]
+pub mod c29;
+
 pub fn all() -> Vec<&'static dyn simcore::Property> {
-    vec![]
+    #[allow(unused_mut)]
+    let mut v: Vec<&'static dyn simcore::Property> = vec![];
+    #[cfg(feature = "hooks")]
+    {
+        v.push(&c16::C16);
+        v.push(&c17::C17);
+        v.push(&c29::C29);
+    }
+    v
 }
